@@ -277,6 +277,31 @@ Section Proofs.
       exists i, sg1, sg2, a2. auto.
   Qed.
 
+  (* ---------- sequences of calls on one object ---------- *)
+
+  (* the verdict of the k-th call on a part object is the verdict of a fresh
+     call with the k-th decision: it depends on (context, decision, part) only *)
+  Theorem part_session_stateless vals idx s ds k d :
+    nth_error ds k = Some d ->
+    nth_error (part_session addr_eqb recover vals idx s ds) k = Some (verify_part d vals idx s).
+  Proof. intro H. exact (map_nth_error (fun d => verify_part d vals idx s) k ds H). Qed.
+
+  Theorem verify_session_stateless vals sigs ds k d :
+    nth_error ds k = Some d ->
+    nth_error (verify_session addr_eqb recover vals sigs ds) k = Some (verify d vals sigs).
+  Proof. intro H. exact (map_nth_error (fun d => verify d vals sigs) k ds H). Qed.
+
+  (* in particular a part accepted for one decision is accepted for another one
+     only if the signature recovers to the same validator for that one too *)
+  Corollary part_session_no_replay vals idx s ds k d i :
+    nth_error ds k = Some d ->
+    nth_error (part_session addr_eqb recover vals idx s ds) k = Some (Some i) ->
+    exists sg, s = Some sg /\ part_ok d vals i sg.
+  Proof.
+    intros Hk Hs. rewrite (part_session_stateless _ _ _ _ _ _ Hk) in Hs. inversion Hs as [Hv].
+    apply verify_part_iff in Hv. destruct Hv as [_ Hv]. exact Hv.
+  Qed.
+
   (* ---------- proofContextMap.Verify ---------- *)
 
   (* the digests that have a proof context, with that context *)
